@@ -220,6 +220,18 @@ def exact_state(G, desc, obj):
     raise KeyError(k)
 
 
+_INV = {}
+
+
+def _inv_cached(M):
+    key = tuple(tuple(r) for r in M)
+    if key not in _INV:
+        if len(_INV) > 2000:
+            _INV.clear()
+        _INV[key] = X.inv(M)
+    return _INV[key]
+
+
 def act(M, st):
     """Exact action of the invertible matrix M on an exact object state."""
     k = st["kind"]
@@ -229,7 +241,7 @@ def act(M, st):
         return {**st, "V": [X.matvec(M, v) for v in st["V"]]}
     if k == "verts":
         return {**st, "V": [X.matvec(M, v) for v in st["V"]]}
-    Mi = X.inv(M)
+    Mi = _inv_cached(M)
     MiT = X.transpose(Mi)
     if k == "hyper":
         return {**st, "v": X.matvec(MiT, st["v"])}
